@@ -444,5 +444,34 @@ def late_wait(lab):
     return plan(), d
 
 
-CORPUS = dict(sparse=sparse, two_runs_cleared=two_runs_cleared, late_wait=late_wait, norewind_section=norewind_section, configure_mid=configure_mid, count_norewind=count_norewind, declared=declared, double_stage=double_stage, failpause=failpause, defer_failpause=defer_failpause, count2=count2, scan2=scan2, scan3=scan3, rel_scan2=rel_scan2, list_scan2=list_scan2, grid2x2=grid2x2, adaptive=adaptive, tune=tune,
+def stubbed(lab):
+    """A plan run under stub_wrapper (open_run/close_run/stage/unstage dropped); the inner plan records what each yield received."""
+    import bluesky.plan_stubs as bps
+    import bluesky.preprocessors as bpp
+    from bluesky.utils import Msg
+
+    d = _std(lab)
+    m, det = d["m1"], d["det"]
+    d["inner_log"] = log = []
+
+    def inner():
+        for mk in (lambda: Msg("set", m, 1.0, group="g"), lambda: Msg("wait", None, group="g"), lambda: Msg("stage", det), lambda: Msg("open_run"),
+                   lambda: Msg("checkpoint"), lambda: Msg("trigger", det, group="t"), lambda: Msg("close_run"), lambda: Msg("wait", None, group="t"),
+                   lambda: Msg("unstage", det), lambda: Msg("null", None, "end")):
+            msg = mk()
+            r = yield msg
+            log.append((msg, r))
+        return "stubbed-done"
+
+    def outer():
+        yield Msg("open_run")
+        yield Msg("checkpoint")
+        r = yield from bpp.stub_wrapper(inner())
+        yield Msg("close_run")
+        return r
+
+    return outer(), d
+
+
+CORPUS = dict(stubbed=stubbed, sparse=sparse, two_runs_cleared=two_runs_cleared, late_wait=late_wait, norewind_section=norewind_section, configure_mid=configure_mid, count_norewind=count_norewind, declared=declared, double_stage=double_stage, failpause=failpause, defer_failpause=defer_failpause, count2=count2, scan2=scan2, scan3=scan3, rel_scan2=rel_scan2, list_scan2=list_scan2, grid2x2=grid2x2, adaptive=adaptive, tune=tune,
               fly1=fly1, bare=bare, cleanup=cleanup, staged_monitor=staged_monitor, nested_runs=nested_runs, flymon=flymon)
